@@ -2,7 +2,8 @@
    Only statements; proofs live in Proof/P_IntFmtDigits.v and Proof/P_IntFmt.v.
    Characters are code points: 'd'=100 'o'=111 'x'=120 'X'=88, ' '=32, '0'=48, '-'=45. *)
 From Coq Require Import ZArith List Bool.
-From CyVerif Require Import Lib.CInt Model.M_IntFmt Proof.P_IntFmtDigits Proof.P_IntFmt Gen.Gen_IntFmt.
+From CyVerif Require Import Lib.CInt Model.M_IntFmt Proof.P_IntFmtDigits Proof.P_IntFmt Proof.P_IntFmtUtf8
+  Gen.Gen_IntFmt.
 Import ListNotations.
 Open Scope Z_scope.
 
@@ -79,6 +80,85 @@ Theorem C18_char_range_check_fixed : forall w s v width pad,
   uchar_to_unicode true w s v width pad = py_format_char v width pad.
 Proof. exact char_range_fixed. Qed.
 Print Assumptions C18_char_range_check_fixed.
+
+(* ---- the padded 'c' path at byte level (__Pyx_PyUnicode_FromOrdinal_Padded: UTF-8 encode into
+   char chars[256], memset the padding, PyUnicode_DecodeUTF8 / DecodeLatin1) ---- *)
+
+(* decode (encode cp) = [cp] for EVERY code point the C encoder is given: U+0080..U+10FFFF minus
+   the surrogates (which take the PyUnicode_FromOrdinal path); utf8_enc_c = the three branches with
+   the guards  value < 0x800 / value < 0x10000 / else  and the masks and shifts as written;
+   utf8_decode = strict RFC 3629 decoder (overlong forms, surrogates, > U+10FFFF, truncation,
+   stray continuation bytes are errors).  By case analysis on the ranges, not by enumeration. *)
+Theorem C18_utf8_decode_encode : forall cp, 128 <= cp <= 1114111 -> is_surrogate cp = false ->
+  utf8_decode (utf8_enc_c cp) = Some [cp].
+Proof.
+  intros cp H S. rewrite <- (app_nil_r (utf8_enc_c cp)). rewrite utf8_roundtrip by assumption. reflexivity.
+Qed.
+Print Assumptions C18_utf8_decode_encode.
+
+(* the bytes are the RFC 3629 encoding (2, 3 or 4 bytes by range, each a byte) *)
+Theorem C18_utf8_bytes : forall cp, 128 <= cp <= 1114111 ->
+  utf8_enc_c cp = utf8_ref cp /\ Forall (fun b => 0 <= b <= 255) (utf8_enc_c cp) /\
+  length (utf8_enc_c cp) = (if cp <? 2048 then 2%nat else if cp <? 65536 then 3%nat else 4%nat).
+Proof. intros cp H. split; [apply enc_is_utf8; assumption|]. split; [apply enc_bytes|apply enc_length]. Qed.
+Print Assumptions C18_utf8_bytes.
+
+(* the branch guards are tight: a code point given to a branch one size too short or too long
+   never decodes back to itself (so `<` vs `<=` at 0x800 / 0x10000 matters for exactly those values) *)
+Theorem C18_utf8_guards_tight : forall cp,
+  (2048 <= cp -> utf8_decode (enc2 cp) <> Some [cp]) /\
+  (65536 <= cp -> utf8_decode (enc3 cp) <> Some [cp]) /\
+  (128 <= cp < 2048 -> utf8_decode (enc3 cp) = None) /\
+  (2048 <= cp < 65536 -> utf8_decode (enc4 cp) = None).
+Proof. exact guards_tight. Qed.
+Print Assumptions C18_utf8_guards_tight.
+
+(* the byte-level helper equals the abstract one for EVERY int value (also negative and beyond
+   U+10FFFF: Latin-1 truncation, 21-bit 4-byte form), every ulength >= 2 and every ASCII padding
+   character (the compiler only passes ' ' and '0') *)
+Theorem C18_char_bytes_refine : forall iv ulength pad, 2 <= ulength -> 0 <= pad <= 127 ->
+  from_ordinal_padded_b iv ulength pad = from_ordinal_padded iv ulength pad.
+Proof. exact padded_b_refines. Qed.
+Print Assumptions C18_char_bytes_refine.
+
+(* full statement for the code as it is: for every C integer type, value, width and ASCII padding
+   character f"{v:<pad><width>c}" is CPython's text or OverflowError *)
+Theorem C18_char_bytes_eq : forall w s v width pad,
+  1 <= w -> in_range w s v -> 0 <= pad <= 127 ->
+  uchar_to_unicode_b true w s v width pad = py_format_char v width pad.
+Proof. exact char_bytes_fixed. Qed.
+Print Assumptions C18_char_bytes_eq.
+
+(* padded length: exactly max(width,1) characters = width-1 padding characters then the code
+   point; chars[256] suffices for every width; no decode error, abort or ValueError *)
+Theorem C18_char_padded_length : forall w s v width pad l,
+  1 <= w -> in_range w s v -> 0 <= pad <= 127 ->
+  uchar_to_unicode_b true w s v width pad = CText l ->
+  Z.of_nat (length l) = Z.max width 1 /\ last l 0 = v /\ 0 <= v <= 1114111 /\
+  firstn (Z.to_nat (width - 1)) l = repeat pad (Z.to_nat (width - 1)).
+Proof. exact char_bytes_length. Qed.
+Print Assumptions C18_char_padded_length.
+
+Theorem C18_char_bytes_safe : forall w s v width pad,
+  1 <= w -> in_range w s v -> 0 <= pad <= 127 ->
+  uchar_to_unicode_b true w s v width pad <> CBufferOverflow /\
+  uchar_to_unicode_b true w s v width pad <> CUnicodeDecodeError /\
+  uchar_to_unicode_b true w s v width pad <> CAbort /\
+  uchar_to_unicode_b true w s v width pad <> CValueError.
+Proof. exact char_bytes_safe. Qed.
+Print Assumptions C18_char_bytes_safe.
+
+(* non-vacuity of the byte-level statements: first/last code point of every encoding length, the
+   widest padding the buffer path takes (250 + 4 bytes), and the overlong form C0 80 rejected *)
+Example C18_utf8_nonvacuous :
+  utf8_enc_c 2047 = [223; 191] /\ utf8_enc_c 2048 = [224; 160; 128] /\
+  utf8_enc_c 65535 = [239; 191; 191] /\ utf8_enc_c 65536 = [240; 144; 128; 128] /\
+  utf8_enc_c 1114111 = [244; 143; 191; 191] /\
+  utf8_decode (enc2 2048) = None /\ utf8_decode [237; 160; 128] = None /\
+  uchar_to_unicode_b true 32 true 2048 3 32 = CText [32; 32; 2048] /\
+  uchar_to_unicode_b true 32 true 1114111 251 48 = CText (repeat 48 250 ++ [1114111]) /\
+  uchar_to_unicode_b true 32 true 1114111 252 48 = CText (repeat 48 251 ++ [1114111]).
+Proof. vm_compute. intuition congruence. Qed.
 
 (* the three tables as written in Cython/Utility/TypeConversion.c (Gen/Gen_IntFmt.v is regenerated
    from the source text on every run) are the tables of the model *)
